@@ -78,7 +78,7 @@ func (r zzC18Ref) readDir(name string) ([]string, map[string]bool, bool) {
 // VerifC18_Overlay: differential against a union model for every stack of
 // layers over the path universe.
 func VerifC18_Overlay() {
-	nl := zzBound("layers", 2, 3)
+	nl := zzBound("layers", 3, 3)
 	np := zzBound("paths", 3, 4)
 	var real []fs.FS
 	ref := zzC18Ref{}
